@@ -177,6 +177,13 @@ NATIVES = {
     'collections.defaultdict': collections.defaultdict, 'collections.OrderedDict': collections.OrderedDict,
     'itertools.chain': itertools.chain, 'itertools.islice': itertools.islice, 'itertools.takewhile': itertools.takewhile,
     'itertools.dropwhile': itertools.dropwhile, 'functools.reduce': functools.reduce, 'operator.itemgetter': operator.itemgetter,
+    'collections.deque': collections.deque, 'itertools.filterfalse': itertools.filterfalse, 'itertools.compress': itertools.compress,
+    'itertools.accumulate': itertools.accumulate, 'itertools.count': itertools.count, 'itertools.repeat': itertools.repeat,
+    'itertools.zip_longest': itertools.zip_longest, 'itertools.starmap': itertools.starmap, 'itertools.tee': itertools.tee,
+    'itertools.groupby': itertools.groupby, 'itertools.product': itertools.product, 'operator.attrgetter': operator.attrgetter,
+    'operator.not_': operator.not_, 'operator.is_': operator.is_, 'operator.is_not': operator.is_not, 'operator.contains': operator.contains,
+    'operator.le': operator.le, 'operator.lt': operator.lt, 'operator.ge': operator.ge, 'operator.gt': operator.gt, 'operator.eq': operator.eq, 'operator.ne': operator.ne,
+    'functools.partial': functools.partial,
 }
 
 _NATIVE_TYPES = (list, tuple, dict, set, frozenset, str, int, float, bool, type(None), type({}.keys()), type({}.values()),
@@ -398,6 +405,17 @@ class Ev:
         return fields
 
     def instantiate(self, ci, args, kwargs):
+        decos = [u(d).split('(')[0] for d in ci.node.decorator_list]
+        if not decos and all((b or '') in ('object', 'builtins.object') for b in ci.bases):
+            # a plain class (a small state holder a refactoring introduced): identity semantics, attributes set by its own methods
+            rec = Rec(self, ci, {}, False)
+            rec._plain = True
+            init = self.m.find_method(ci.qualname, '__init__')
+            if init is not None:
+                self.call_func(FuncV(self, init, None, rec), args, kwargs)
+            elif args or kwargs:
+                raise PyExc(TypeError(f'{ci.name}() takes no arguments'))
+            return rec
         fields = self.attrs_fields(ci)
         rec = Rec(self, ci, {}, True)
         names = [f[0] for f in fields]
@@ -439,7 +457,7 @@ class Ev:
                 if decos == ['staticmethod']:
                     return FuncV(self, meth)
                 raise Undecided(f'evaluator: {v._ci.name}.{attr} is decorated with {decos}: not modelled')
-            if v._closed:
+            if v._closed or getattr(v, '_plain', False):
                 raise PyExc(AttributeError(f"'{v._ci.name}' object has no attribute '{attr}'"), getattr(node, 'lineno', None))
             raise Undecided(f'evaluator: attribute {v._ci.name}.{attr} is not part of the finite model')
         if isinstance(v, ExtV):
@@ -456,7 +474,7 @@ class Ev:
             if attr == 'shape':
                 return (len(v),)
             raise Undecided(f'evaluator: ndarray.{attr} is not modelled')
-        if attr.startswith('__'):
+        if attr.startswith('__') and not (attr in ('__contains__', '__getitem__', '__len__', '__iter__') and isinstance(v, _NATIVE_TYPES)):
             raise Undecided(f'evaluator: special attribute {attr} is not modelled')
         if isinstance(v, _NATIVE_TYPES) or hasattr(v, '__next__'):
             try:
@@ -1487,9 +1505,14 @@ def check_coverage(ctx, ev):
     code hangs on, of every function of gambit.classify it entered.  Code the domain never reaches (a special case for more taxa
     than enumerated, an environment switch ...) cannot be vouched for: the run is undecided, never a pass."""
     unc = []
+    from ..inline import known_symbols
+    known = known_symbols()
+    subject = {f'{CL}.consensus_taxon', f'{CL}.find_matches', f'{CL}.classify', f'{CL}.matching_taxon'}
     for q, fi in sorted(ev.entered.items()):
         if not q.startswith(CL + '.'):
             continue
+        if q in known and q not in subject:
+            continue          # a function of the reference tree that is another property's subject (next_taxon is C03's), entered only through a default
         for s in stmts_in(fi.node.body):
             if isinstance(s, (ast.FunctionDef, ast.AsyncFunctionDef, ast.ClassDef, ast.Pass)) or (isinstance(s, ast.Expr) and isinstance(s.value, ast.Constant)):
                 continue
